@@ -46,6 +46,10 @@ type shapeN struct {
 	Stamp stampT
 }
 
+// maxRequestsPerCall bounds how often one repository call may ask a server whose answer never
+// changes (retries with back-off are fine; asking for ever is "blocks forever").
+const maxRequestsPerCall = 64
+
 // simTransport is the simulated network: it answers every request from a script.
 type simTransport struct {
 	clen    int64 // Content-Length to announce (-1: unknown / chunked)
@@ -62,6 +66,11 @@ func (t *simTransport) RoundTrip(req *http.Request) (*http.Response, error) {
 	t.lastURL = req.URL.String()
 	if t.err != nil {
 		return nil, t.err
+	}
+	if t.calls > maxRequestsPerCall {
+		// the server's answer has not changed for this many requests: stop the run here, the oracle
+		// reports that the call does not give up
+		return nil, errors.New("simulated transport: request budget of one call exhausted")
 	}
 	// like a real transport, the body dies with the request's context
 	t.body.Ctx = req.Context()
@@ -504,6 +513,7 @@ func (c19) Run(c *Case, st *Stats) []Violation {
 	}
 	plan := fsPlan(c.Faults)
 	var compare func() // runs after the simulation, compares delivered with reference
+	var lastTransport *simTransport
 	clientDone := false
 	var srcReader *FragReader
 	dir := ""
@@ -552,6 +562,7 @@ func (c19) Run(c *Case, st *Stats) []Violation {
 				}
 			case "tiingo-getsince", "tiingo-lastdate":
 				tr := &simTransport{status: status, body: newReader(), clen: -1}
+				lastTransport = tr
 				if len(c.Param) > 1 && c.Param[1] == 1 {
 					tr.clen = int64(len(c.Doc)) // a server that announces the length (as most do)
 				}
@@ -721,6 +732,10 @@ func (c19) Run(c *Case, st *Stats) []Violation {
 	}
 	if !clientDone {
 		add("hang", "the stream never closed; "+stuckSummary(out.Stuck))
+		return vs
+	}
+	if lastTransport != nil && lastTransport.calls > maxRequestsPerCall {
+		add("hang", fmt.Sprintf("one call sent more than %d requests to a server that kept answering %d: it does not give up", maxRequestsPerCall, lastTransport.status))
 		return vs
 	}
 	if compare != nil && len(vs) == 0 {
